@@ -89,11 +89,20 @@ class NgapEnc(Stream):
 
 class C03(A.AperCheck):
     pid = "C03"
-    prop_files = []
+    prop_files = ["Properties/C03.v"]
     extra_targets = ["Model/AperCheck.vo", "Spec/X691Check.vo"]
     streams = [PrimEnc(), NgapEnc()]
-    trusted = []
-    assumptions = []
+    trusted = ["Coq 8.16.1 kernel incl. vm_compute (no native_compute); no axioms (Print Assumptions: closed under the global context)",
+               "hand-written models Model/AperEnc.v, Model/AperDec.v (marshal.go / aper.go) tied by the correspondence streams: implementation == model on every case, incl. error identity and panics",
+               "Go slices modelled with capacity == length (the harness hands exact-capacity slices to the codec)",
+               "reflect-based translator harness/gen_ngapschema.go (a copy of parseFieldParameters; root parameter strings read from ngap.go / build.go)",
+               "Spec/NgapGolden.v: frozen transcription of the TS 38.413 types in tag notation (cross-checked against an independent Python X.691 reference on ~24000 values in the design round)",
+               "Spec/X691.v written from ITU-T X.691 (08/2015), aligned variant, lengths below 16384, no extension additions",
+               "Python reference encoder in vlib/props/AperLib.py (only used to produce canonical encodings; checked equal to the Coq specification on every case)"]
+    assumptions = ["main claim for encodings whose every length determinant is below 16384 (fragmentation swept under C03:fragmented)",
+                   "quantifier = NGAP PDUs and transfer containers: constraint classes without an NGAP instance are exercised for model == implementation only and counted in coverage.outside_ngap_classes",
+                   "PrivateMessage (OBJECT IDENTIFIER, CHOICE without bound) cannot be encoded by the library and is outside the streams",
+                   "byte-level bit writer = bit-list append (refinement) and the structural induction are not proved (Properties/C03.v TODO-PARTIAL); they are covered by the streams"]
 
     def regen(self, harness):
         ch = G.run_translator(harness, "gen-ngapschema", "NgapSchema.v")
